@@ -233,9 +233,9 @@ public:
         for (auto &kv : a.lv) if (kv.first.first >= NACC || kv.first.second >= NKEY) fail("C18:harness:key-outside-universe");
         const bool atmOp = op.kind == Op::Man || op.kind == Op::Msg;
 
-        // Known corner (finding C18:cross-owner-key-id): once a key ID has been used with two accounts in this sequence, held-back
-        // entries filed under that ID can fire for the wrong account and cascade.  An out-of-scope change is attributed to it only if
-        // key IDs are shared AND some held-back entry was consumed in this very step; otherwise it is a plain scope failure.
+        // Defect fixed in repo commit a532e12 (key C18:cross-owner-key-id stays live): held-back entries filed under a key ID used with two accounts
+        // fired for the wrong account.  An out-of-scope change is reported under that key if key IDs are shared in this sequence AND some held-back
+        // entry was consumed in this very step, else as a plain scope failure.  Both are violations.
         bool consumed = false;
         for (auto &pe : b.pp) if (!a.pp.count(pe)) consumed = true;
 
@@ -355,8 +355,15 @@ public:
                 const bool overwritten = op.kind == Op::Msg && op.sk == r.sk && op.acc != r.sacc && a.pp.count(PEntry(r.sk, r.owner, r.key, !r.trust));
                 if (overwritten) stat("cross_owner_overwritten");
                 else if ((otherAuth || otherDis) && tookEffect) {
-                    // the decision fired although ITS sender's key (r.sacc, r.sk) is not authenticated: key id shared with another account
-                    stat("cross_owner_fired"); fail("C18:cross-owner-key-id", recText(r));
+                    // The decision fired although ITS sender's key (r.sacc, r.sk) is not authenticated: the key ID is authenticated for another
+                    // account.  Entries are filed by key ID only, so this is tolerated (and counted) exactly when that account could have made
+                    // the decision itself: the own account, or the account the decision is about.  Anything else is the defect fixed in a532e12.
+                    // (an own key or an own device's message may start a cascade that authenticates keys of several accounts at once; the
+                    // re-check is per batch, and whoever started it may decide about every account anyway)
+                    bool inScopeOfOther = (op.kind == Op::Msg && op.acc == own) || (op.kind == Op::Man && op.o == own);
+                    for (int acc2 = 0; acc2 < NACC; acc2++) if (acc2 != r.sacc && (a.level(acc2, r.sk) == L_AUTH || a.level(acc2, r.sk) == L_MANDIS) && (acc2 == own || acc2 == r.owner)) inScopeOfOther = true;
+                    if (inScopeOfOther) stat("fired_by_key_id_other_account");
+                    else { stat("cross_owner_fired"); fail("C18:cross-owner-key-id", recText(r)); }
                 } else if (otherDis) stat("cross_owner_discarded");
                 else if (sameIdDecided) stat("held_decision_superseded");
                 else if (otherAuth) stat("cross_owner_fired_without_effect");
@@ -475,7 +482,7 @@ int main(int argc, char **argv) {
     tst_QXmppAtmManager t;
 
     // ---- corpus: scripted corners first (own account a0, own resource r0; a1 = contact B, a2 = contact C)
-    // the cross-owner corner: C's unauthenticated device k1 says "C:k2 is trusted"; B (authenticated by k3) claims key id k1 as its own
+    // witness of the defect fixed in a532e12 (kept first): C's unauthenticated device k1 says "C:k2 is trusted"; B (authenticated by k3) claims key id k1 as its own
     t.runText(0, 0, { "msg 0 2 1 1 0 2:2:-", "man 0 1 3 -", "msg 0 1 1 3 0 1:1:-" });
     t.runText(0, 0, { "msg 0 2 1 1 0 2:1:-", "man 0 1 1 -" });                                  // same, triggered by a manual authentication of B:k1
     t.runText(0, 0, { "msg 0 2 1 1 0 2:-:2", "msg 0 1 1 1 0 1:-:2", "man 0 1 1 -" });            // cross-owner: C's held distrust of C:k2 is dropped when B's fires
